@@ -62,7 +62,7 @@ Definition resp_eqb (a b : resp) : bool :=
   match a, b with R404, R404 | R403, R403 | RPass, RPass => true | _, _ => false end.
 Definition out_eqb (a b : output) : bool :=
   match a, b with
-  | AResp r1 e1, AResp r2 e2 => resp_eqb r1 r2 && Bool.eqb e1 e2
+  | AResp r1 e1, AResp r2 e2 => resp_eqb r1 r2 && (e1 || negb e2)   (* only a request that passed may reach an engine *)
   | AList l1, AList l2 => list_eqb Bool.eqb l1 l2
   | _, _ => false
   end.
@@ -75,7 +75,9 @@ Definition lacks_all (required user : list role) : bool :=
 Definition holds_b (q : input) (o : output) : bool :=
   match q, o with
   | QRoute i (Some required) user, AResp r eng =>
-      if lacks_all required user then negb (resp_eqb r RPass) && negb eng
+      (* a handler that touches neither the aggregator nor the database (gen/Routes.v: NoObject) reads no data *)
+      if match kind_of i with NoObject => true | _ => false end then negb eng
+      else if lacks_all required user then negb (resp_eqb r RPass) && negb eng
       else match required with [] => resp_eqb r RPass | _ => true end
   | QRoute i None user, AResp r eng => negb eng
   | QList i objs user, AList shown =>
